@@ -154,12 +154,99 @@ func c22Scripts() [][]c22Step {
 	finalY := c22Deliver(mcDelivery{Name: "ch3:new-round:Y-takes-over-X", Chain: 3, NewRound: true, TsOffset: 45 * sec, Build: mcCrTransfer(true, "c22-b3", "3", "2", "1", "c22-Y")})
 	work3 := c22Work(3)
 	work2 := c22Work(2)
+	// re-inclusion of an already finalized transaction by a finalized snapshot of
+	// ANOTHER chain (the kernel accepts it for finalized snapshots; the ledger
+	// keeps the finalization record of the first snapshot), each followed later
+	// in the script by a round transition of the re-including chain so that the
+	// round holding the re-inclusion becomes final while crash cuts continue:
+	//  dupA  ch4 head round: 1-member snapshot re-including deposit b1 (first on ch3);
+	//        the round is closed by b5 (ch4 new round)
+	//  dupB  ch5 FIRST snapshot of a new round re-including transfer t2 (first on
+	//        ch2); the round is closed by dupC
+	//  dupC  ch5 new round, 2-member batch {deposit b2 (first on ch4), fresh
+	//        deposit b7}; the round is closed by b9 (ch5 new round)
+	dupA := c22Reinclude(mcDelivery{Name: "ch4:reinclude-b1(of-ch3)", Chain: 4, TsOffset: 3 * sec, Build: mcCrDepositBTC("c22-b1", "10")}, 1)
+	dupB := c22Reinclude(mcDelivery{Name: "ch5:new-round:reinclude-t2(of-ch2)", Chain: 5, NewRound: true, TsOffset: 30 * sec, Build: mcCrTransfer(true, "c22-b2", "10", "1", "9", "c22-t2")}, 1)
+	dupC := c22Reinclude(mcDelivery{Name: "ch5:new-round:batch-reinclude-b2(of-ch4)+b7", Chain: 5, NewRound: true, TsOffset: 46 * sec, Build: func(m *mcNode, ts uint64) []*common.VersionedTransaction {
+		var out []*common.VersionedTransaction
+		out = append(out, mcCrDepositBTC("c22-b2", "10")(m, ts)...)
+		out = append(out, mcCrDepositBTC("c22-b7", "7")(m, ts)...)
+		return out
+	}}, 1)
+	b9 := c22Deliver(mcDelivery{Name: "ch5:new-round:deposit-b9", Chain: 5, NewRound: true, TsOffset: 55 * sec, Build: mcCrDepositBTC("c22-b9", "9")})
+	// order constraints: dupA after b1 and before b5; dupB after split and ehu;
+	// dupC after b2 and dupB; b9 after dupC
 	return [][]c22Step{
-		{fundP, b1, b2, three, pledge, split, b5, ehu, admitX, finalY, work3, work2},
-		{b1, b2, fundP, ehu, three, admitX, split, pledge, finalY, b5, work2, work3},
-		{b2, b1, three, admitX, finalY, work3, fundP, split, pledge, b5, ehu, work2},
-		{ehu, fundP, pledge, b1, three, b2, admitX, split, work2, finalY, b5, work3},
+		{fundP, b1, b2, dupA, three, pledge, split, b5, ehu, dupB, admitX, finalY, dupC, work3, b9, work2},
+		{b1, dupA, b2, fundP, ehu, three, admitX, split, dupB, pledge, dupC, finalY, b5, b9, work2, work3},
+		{b2, b1, three, admitX, finalY, work3, fundP, split, pledge, dupA, b5, ehu, dupB, dupC, b9, work2},
+		{ehu, fundP, pledge, b1, three, b2, admitX, split, dupB, work2, dupA, dupC, finalY, b5, b9, work3},
 	}
+}
+
+// c22Reinclude delivers a finalized snapshot whose first `dups` transactions (in
+// Build order) are ALREADY finalized by a snapshot of another chain. Driver
+// precondition (checked, not assumed): each of them has a finalization record
+// naming a snapshot of a different chain when the delivery is made.
+func c22Reinclude(d mcDelivery, dups int) c22Step {
+	return c22Step{name: d.Name, run: func(m *mcNode) {
+		ts := m.Net.Epoch + uint64(mcCrashBase+d.TsOffset)
+		for i, tx := range d.Build(m, ts) {
+			if i >= dups {
+				break
+			}
+			_, snap, err := m.Store.ReadTransaction(tx.PayloadHash())
+			if err != nil {
+				panic(err)
+			}
+			if snap == "" {
+				panic(fmt.Sprintf("harness: %s: transaction %s is not finalized yet", d.Name, tx.PayloadHash()))
+			}
+			sh, _ := crypto.HashFromString(snap)
+			sn, err := m.Store.ReadSnapshot(sh)
+			if err != nil || sn == nil {
+				panic(fmt.Sprintf("harness: %s: finalizing snapshot %s unreadable (%v)", d.Name, snap, err))
+			}
+			// after a restart the delivery is repeated: the record may then name this
+			// chain's own snapshot only if this chain was the first (never in these scripts)
+			if sn.NodeId == m.Net.NodeIds[d.Chain] {
+				panic(fmt.Sprintf("harness: %s: transaction %s was first finalized by this very chain", d.Name, tx.PayloadHash()))
+			}
+		}
+		dd := d
+		mcDeliver(m, &dd)
+	}}
+}
+
+// c22Duplicates counts, on the stored ledger, the (snapshot, transaction) pairs
+// in which the transaction's finalization record names ANOTHER snapshot
+// (cross-chain re-inclusions), and how many of them sit in a round that is
+// already final (below the chain's head round), i.e. inside the scope of the
+// startup graph validator.
+func c22Duplicates(m *mcNode) (all, inFinalRound int) {
+	st := m.Store
+	for _, v := range st.VerifDump("SNAPSHOT") {
+		vb, _ := hex.DecodeString(v)
+		sn, err := common.UnmarshalVersionedSnapshot(vb)
+		if err != nil || sn == nil {
+			continue
+		}
+		head, err := st.ReadRound(sn.NodeId)
+		if err != nil || head == nil {
+			continue
+		}
+		for _, h := range sn.Transactions {
+			_, snap, err := st.ReadTransaction(h)
+			if err != nil || snap == "" || snap == sn.PayloadHash().String() {
+				continue
+			}
+			all++
+			if sn.RoundNumber < head.Number {
+				inFinalRound++
+			}
+		}
+	}
+	return all, inFinalRound
 }
 
 // c22Invariants evaluates the restart invariants on a freshly set-up node.
@@ -293,7 +380,7 @@ func c22Normalize(d map[string]string) map[string]string {
 func TestMC_C22(t *testing.T) {
 	c := verifmc.Start(t, "C22", "model_checking")
 	defer c.Finish()
-	c.SetRule("4 fixed multi-chain scripts of 12 kernel-level steps (finalization deliveries through the real cosiHandleFinalization incl. new rounds, a 3-member batch, a node pledge with consensus marker and node-operation lock, an empty-head reference update, an unfinalized admission displaced by a finalized takeover, round-work aggregation); each script is cut before EVERY durable commit of the snapshot DB; after each cut: reopen + real SetupNode + invariants, then the rest of the script is re-delivered and the final database compared byte for byte with the uncut run")
+	c.SetRule("4 fixed multi-chain scripts of 16 kernel-level steps (finalization deliveries through the real cosiHandleFinalization incl. new rounds, a 3-member batch, a node pledge with consensus marker and node-operation lock, an empty-head reference update, an unfinalized admission displaced by a finalized takeover, round-work aggregation, and three re-inclusions of an already finalized transaction by a finalized snapshot of another chain - in a head round, as first snapshot of a new round, inside a 2-member batch - each followed by a round transition of the re-including chain so that the round with the duplicate becomes final); each script is cut before EVERY durable commit of the snapshot DB; after each cut: reopen + real SetupNode + invariants, then the rest of the script is re-delivered and the final database compared byte for byte with the uncut run")
 	c.Assume("a Badger commit is the atomic durable unit; durable state after 'crash before commit k' is exactly commits 1..k-1", "fixed scripts instead of a randomized workload (stated deviation); peers re-deliver finalizations after a restart")
 	base := mcScratchDir("c22-")
 	defer mcRemoveAll(base)
@@ -323,6 +410,8 @@ func TestMC_C22(t *testing.T) {
 		c.Sample(map[string]any{"script": si, "steps": names, "durable_commits": total})
 		c22Invariants(run.M, func(k, d string) { c.Violation(k, d, map[string]any{"script": si, "cut": "none"}) }, fmt.Sprintf("script %d uncut", si))
 		finals[si] = c22Normalize(run.M.Store.VerifDump(""))
+		dupAll, dupFinal := c22Duplicates(run.M)
+		c.Require(dupAll == 3 && dupFinal == 3, "script %d: expected 3 cross-chain re-inclusions, all in final rounds at the end; got %d, %d final", si, dupAll, dupFinal)
 		run.Crash()
 		mcRemoveAll(dir)
 		for k := int64(1); k <= total; k++ {
@@ -332,6 +421,7 @@ func TestMC_C22(t *testing.T) {
 	}
 	var mu sync.Mutex
 	classes := map[string]int{}
+	restartsWithDup, restartsWithFinalDup, maxFinalDup := 0, 0, 0
 	c.ParallelN(len(jobs), "crash cuts", func(_, ji int) {
 		j := jobs[ji]
 		steps := scripts[j.script]
@@ -364,6 +454,7 @@ func TestMC_C22(t *testing.T) {
 			return
 		}
 		c22Invariants(re, report, ctx+" in step "+steps[at].name)
+		dupAll, dupFinal := c22Duplicates(re)
 		// continue: the interrupted step and everything after it is re-delivered
 		if fa, p2 := c22RunSteps(re, steps, at, nil); p2 != nil {
 			report("continue-failed:"+steps[fa].name, fmt.Sprintf("%s: after restart step %s failed: %v", ctx, steps[fa].name, p2))
@@ -378,13 +469,27 @@ func TestMC_C22(t *testing.T) {
 		re.Close()
 		mu.Lock()
 		classes[steps[at].name]++
+		if dupAll > 0 {
+			restartsWithDup++
+		}
+		if dupFinal > 0 {
+			restartsWithFinalDup++
+		}
+		if dupFinal > maxFinalDup {
+			maxFinalDup = dupFinal
+		}
 		mu.Unlock()
 		c.AddStates(1)
 	})
 	c.Set("crash_cuts", len(jobs))
 	c.Set("cuts_per_step", classes)
+	c.Set("restarts_with_cross_chain_reinclusion", restartsWithDup)
+	c.Set("restarts_with_reinclusion_in_final_round", restartsWithFinalDup)
+	c.Set("max_reinclusions_in_final_rounds_at_restart", maxFinalDup)
+	c.Require(restartsWithFinalDup >= 10 || c.Violations() > 0, "only %d restarts happened on a ledger with a cross-chain re-inclusion in a final round", restartsWithFinalDup)
+	c.Require(maxFinalDup == 3 || c.Violations() > 0, "no restart saw all 3 re-inclusions in final rounds (max %d)", maxFinalDup)
 	c.Require(len(jobs) >= 40, "only %d crash cuts", len(jobs))
-	c.Require(len(classes) >= 8 || c.Violations() > 0, "crash cuts hit only %d kinds of step", len(classes))
+	c.Require(len(classes) >= 11 || c.Violations() > 0, "crash cuts hit only %d kinds of step", len(classes))
 }
 
 func c22Class(s string) string {
